@@ -47,6 +47,8 @@ def mc_run(prop, module, factory, kwargs, name, tier, seed, max_states=2_000_000
         for ts in h.c.ticksets:
             fhdl.selfcheck(h.c, selfcheck_cycles, seed, tick=ts)
         out["selfcheck_cycles"] = selfcheck_cycles * len(h.c.ticksets)
+    if time_limit is None and tier == "thorough":
+        time_limit = int(os.environ.get("VERIF_THOROUGH_TIME_LIMIT", "3000"))      # a configuration that does not close in time is reported as CAPPED
     known = explore.KnownFindings(KNOWN_PATH, prop)
     wg = bool(liveness) if want_graph is None else want_graph
     res = explore.bfs(h, max_states=max_states, max_depth=max_depth, want_graph=wg, known=known, time_limit=time_limit,
